@@ -56,7 +56,7 @@ def run(ctx: Ctx) -> None:
                    cases, raw, prelude, shard=300)
 
     # ---- oracle: renaming commutes with transpilation ----
-    N = ctx.n(24, 3000) * (3 if ctx.broken else 1)
+    N = ctx.n(24, 400) * (3 if ctx.broken else 1)
     jobs = []
     for i in range(N):
         p = progen.gen_program(rnd, rnd.randint(1, 3))
